@@ -76,6 +76,9 @@ theorem select_after_unregister_in_range (lens : List Int) (rr i : Nat) (hrr : r
   · exact rr_cursor_lt _ _ h
   · exact absurd h hne
 
+example : (2 < [0, 6, 7, 8].length ∨ [0, 6, 7, 8] = ([] : List Int)) ∧ (unregister [0, 6, 7, 8] 2 3).1 ≠ [] ∧
+    roundRobin (unregister [0, 6, 7, 8] 2 3).1 (unregister [0, 6, 7, 8] 2 3).2 = (.ok 2, 0) := by decide
+
 /-- every bind path of the current tree registers its queue exactly once (regenerated call graph) -/
 theorem registered_once : Generated.registerCalls.all (fun p => p.2 == 1) = true := Tie.register_once
 
